@@ -45,6 +45,33 @@ def work(args):
     return n_app, fails
 
 
+TARGETED = [
+    "x + 2 * (y + 3) = 7", "4 + (y + 1)^2 = x", "x + -(y + 3) = 7", "x + (y + 6) / 2 = 7", "7 = x - (y + 3) + 1", "7 = 2x + 3 + 1", "x + (2 + 3) = 7",
+    "x + y + z = 3", "5 = a + (b + c)", "4x + (3 + 2x) = 9", "0xy = 0", "0 * (x * y) = 0", "x * 0 = 0", "5 = 0 * 2x", "2 * (x + 3) = 4", "(x + 1)^2 = 4",
+    "3x + 7 = 2 + 4x", "4x = 8", "2 * 3 * x = 12", "(4x) * y = 8", "x / 2 + 3 = 5", "-(x + 3) = 2", "5 - (x + 3) = 2", "(x + 3) / 2 = 1",
+    "4x + 2y + 3z", "(a * b) * c", "a * (b * c)", "x * (y + 2)", "(y + 2) * x", "x^2 * (4y + 7)", "(c + d) * (a + b)", "2 * (3 + x) * y", "2 + (3x + y)", "5 * ((3 + x) * y)",
+    "4x - (2x + 3)", "(z + 4x) - (2x + y)", "9y - (4 + 2y)", "x + (x - 4)", "2y + (3y - 5)", "x^0 * x^3", "4x^0 * 2x", "x * x^0 * y", "x^-1 * x", "y + y^0", "0x + 2x", "3z + (0z + 4)",
+    "x + (2 - 2)", "8 / 4 * 2", "(x / y) * z", "z * (x / y)", "(x / y) / z", "4 / -(2 + 3)", "a - -(x^2)", "-(2 + 3) * x", "(2x)^2", "x + 1 / 40000", "3^39 * 3",
+]
+
+
+def targeted_work(rules):
+    from treelib import ExpressionParser
+
+    fails = []
+    n = 0
+    for text in TARGETED:
+        for rname in rules:
+            root = ExpressionParser().parse(text).clone()
+            for i in range(len(nodes_inorder(root))):
+                root = ExpressionParser().parse(text).clone()
+                node = nodes_inorder(root)[i]
+                n += 1
+                fails += check_application(rname, root, node)
+            fails += check_find(rname, ExpressionParser().parse(text).clone())
+    return n, fails
+
+
 def main():
     max_expr = int(sys.argv[1])
     max_side = int(sys.argv[2])
@@ -61,6 +88,9 @@ def main():
         for n, f in pool.imap_unordered(work, chunks):
             total += n
             fails += f
+    n, f = targeted_work(rules)
+    total += n
+    fails += f
     # de-duplicate failures by (cfg, prop, clause, shape)
     seen = {}
     for f in fails:
